@@ -262,6 +262,8 @@ OnIssue(m, o) ==
          [] n = "sysev" -> [m0 EXCEPT !.pay = Put(@, op[3], newpay(op[3]))]
          [] n = "sysevsig" -> [m0 EXCEPT !.pay = Put(@, op[3], newpay(op[3])), !.sig = Put(@, op[3], op[4])]
          [] n = "reg"   -> IF op[5] > 0 THEN [m0 EXCEPT !.tok = Put(@, op[5], [s |-> op[3], b |-> op[4]])] ELSE m0
+         \* the last signal of a reference-counted system command was dropped: the next collection must despawn it
+         [] n = "rcdrop" -> IF o.ret = 1 THEN [m0 EXCEPT !.doomed = @ \cup {op[2]}] ELSE m0
          [] n = "on"    -> IF op[5] > 0 THEN [m0 EXCEPT !.tok = Put(@, op[5], [s |-> op[3], b |-> op[4]])] ELSE m0
          [] n = "once"  -> [m0 EXCEPT !.tok = Put(@, op[4], [s |-> op[2], b |-> op[3]]),
                                       !.oncetok = Put(@, op[2], op[3])]
